@@ -286,33 +286,48 @@ structure SegPolyOut where
   d2 : Rat
 deriving Repr
 
+/-- general branch of `segments_polygon`: the closer end point (ties: start), then the boundary segments -/
+def segPolyGeneral (tolS : Rat) (s e : Vec) (poly : List Vec) : SegPolyOut :=
+  let ps := ptPoly s poly
+  let pe := ptPoly e poly
+  let m : Rat × Vec := if pe.d2 < ps.d2 then (pe.d2, pe.cp) else (ps.d2, ps.cp)
+  match minSegSeg tolS s e (edges poly) with
+  | some o => if o.d2 < m.1 then ⟨2, o.cp1, o.d2⟩ else ⟨2, m.2, m.1⟩
+  | none => ⟨2, m.2, m.1⟩
+
+/-- parameter of the intersection of the segment with the plane: `some t` iff the incline is non-zero
+    (`|dz| > tol`, heights are `h/|n|`, so `dz² > tol²·|n|²`) and `t = -hs/dz ∈ [0,1]` (`zero_along_segment`) -/
+def crossParam (tolP nn hs he : Rat) : Option Rat :=
+  if tolP * tolP * nn < (he - hs) * (he - hs) then
+    if 0 ≤ -hs / (he - hs) ∧ -hs / (he - hs) ≤ 1 then some (-hs / (he - hs)) else none
+  else none
+
+/-- `crosses`: the intersection point with the plane, if it exists and passes the membership test -/
+def crossPoint (tolP : Rat) (s e : Vec) (poly : List Vec) : Option Vec :=
+  let n := normal poly
+  let c := centroid poly
+  match crossParam tolP (nsq n) (dot (vsub s c) n) (dot (vsub e c) n) with
+  | some t => if inPoly poly n (projPlane c n (along s e t)) then some (along s e t) else none
+  | none => none
+
 /-- `segments_polygon`, one segment.  `tolP` is the argument `tol` (an absolute length; heights over the
     plane are `h/|n|`, so `|z| < tol` is `h² < tol²·|n|²`), `tolS` the constant 1e-8 of the
     segment–segment kernel. -/
 def segPoly (tolP tolS : Rat) (s e : Vec) (poly : List Vec) : SegPolyOut :=
-  let n := normal poly
-  let c := centroid poly
-  let nn := nsq n
-  let hs := dot (vsub s c) n
-  let he := dot (vsub e c) n
-  let dz := he - hs
-  let nonZeroIncline : Bool := decide (tolP * tolP * nn < dz * dz)
-  let t := if nonZeroIncline then -hs / dz else 0
-  let zeroAlong : Bool := nonZeroIncline && decide (0 ≤ t) && decide (t ≤ 1)
-  let x0 := along s e t
-  let crosses : Bool := zeroAlong && inPoly poly n (projPlane c n x0)
-  let inPlane : Bool := decide (hs * hs < tolP * tolP * nn) && !nonZeroIncline
-  let startIn := inPoly poly n (projPlane c n s)
-  let endIn := inPoly poly n (projPlane c n e)
-  if crosses then ⟨0, x0, 0⟩
-  else if inPlane && (startIn || endIn) then
-    ⟨1, projPlane c n (if startIn then s else e), 0⟩
-  else
-    let ps := ptPoly s poly
-    let pe := ptPoly e poly
-    let m : Rat × Vec := if pe.d2 < ps.d2 then (pe.d2, pe.cp) else (ps.d2, ps.cp)
-    match minSegSeg tolS s e (edges poly) with
-    | some o => if o.d2 < m.1 then ⟨2, o.cp1, o.d2⟩ else ⟨2, m.2, m.1⟩
-    | none => ⟨2, m.2, m.1⟩
+  match crossPoint tolP s e poly with
+  | some x0 => ⟨0, x0, 0⟩
+  | none =>
+    let n := normal poly
+    let c := centroid poly
+    let nn := nsq n
+    let hs := dot (vsub s c) n
+    let he := dot (vsub e c) n
+    let nonZeroIncline : Bool := decide (tolP * tolP * nn < (he - hs) * (he - hs))
+    let inPlane : Bool := decide (hs * hs < tolP * tolP * nn) && !nonZeroIncline
+    let startIn := inPoly poly n (projPlane c n s)
+    let endIn := inPoly poly n (projPlane c n e)
+    if inPlane && (startIn || endIn) then
+      ⟨1, projPlane c n (if startIn then s else e), 0⟩
+    else segPolyGeneral tolS s e poly
 
 end PorepyVerif.C30
